@@ -255,7 +255,7 @@ def _record_turns():
         if top and isinstance(rule, type) and issubclass(rule, Primary) and context.state == "running":
             if rule.__name__ in ("IsComment", "IsPreprocessorStatement", "IsEmptyLine") and len(state["calls"]) < 90:
                 state["calls"].append((rule.__name__, window, bool(r[0] is True), int(r[1]) if isinstance(r[1], int) else -999))
-            if r[0] is True and len(state["turns"]) < 14:
+            if r[0] is True and len(state["turns"]) < 80:
                 state["turns"].append((rule.__name__, int(r[1]), window))
         return r
     Registry.run_rules = rr
@@ -606,6 +606,21 @@ def run(run, tier, seed, replay=None):
                 found |= run.violation("correspondence-state-machine", dict(data, events=ev[:14], model=m[:14], implementation=st[:14]))
         run.count("correspondence: state machine on recorded events (distinct traces)", len(items), len(items))
 
+    # ---- correspondence (v): `declines_newline` (the assumption of the *_emptyline theorems: the primaries tried between
+    # IsComment and IsEmptyLine do not recognise a statement whose first token is NEWLINE): on every recorded statement turn
+    # whose first token is NEWLINE the matched primary is IsEmptyLine with the jump isemptyline_on_newline predicts (1).
+    # Recorded turns exist for every file analysed in-process by this check (search and correspondence cases, the first 80
+    # statements of each); not for the several-file / inline runs, which go through a subprocess.
+    n_nl = 0
+    for turns_k, calls_k, data in turn_records:
+        for nme, jump_, w in turns_k:
+            if w and w[0] == "NEWLINE":
+                n_nl += 1
+                if (nme, jump_) != ("IsEmptyLine", 1):
+                    found |= run.violation("correspondence-declines-newline",
+                                           dict(data, window=list(w)[:8], matched=[nme, jump_], predicted=["IsEmptyLine", 1]))
+    run.count("correspondence: statement turns whose first token is NEWLINE are (IsEmptyLine, 1)", n_nl, n_nl)
+
     # ---- correspondence (iv): the generated IsComment / IsPreprocessorStatement-prefix / one turn, on the recorded token windows
     wins = {}
     for turns_k, calls_k, data in turn_records:
@@ -686,7 +701,12 @@ def run(run, tier, seed, replay=None):
                       "the recorded events, the expression in Coq vs the source's own check_header on all header texts and "
                       "near-misses; non-trivial = the case uses random fields",
                       extra={"exhaustive": False},
-                      assumptions=["a file made of the template lines is cut into one IsComment/MULT_COMMENT event per line: compared on "
+                      assumptions=["declines_newline (Model/EngineTokE.v; hypothesis of the C13_*_emptyline theorems): IsFuncPrototype, "
+                                   "IsFuncDeclaration, IsFunctionCall and IsVarDeclaration - tried between IsComment and IsEmptyLine, not "
+                                   "translated - do not recognise a statement whose first token is NEWLINE: not proved, compared on every "
+                                   "recorded statement turn whose first token is NEWLINE (stream `statement turns whose first token is "
+                                   "NEWLINE`; in-process analyses only, not the subprocess routes)",
+                                   "a file made of the template lines is cut into one IsComment/MULT_COMMENT event per line: compared on "
                                    "every case, not proved (the lexer comment lemma of DESIGN 4.13 is not done)",
                                    "Python's backtracking re.search finds a match iff one exists (no possessive/atomic constructs in the "
                                    "translated subset): compared on every text"])
